@@ -361,6 +361,15 @@ def mp_oracles(net, T, rec):
 						want += sum(ps.inbound_order_pipeline[n.index][r]) + ps.backorders_by_successor[n.index][r] + ps.outbound_disrupted_items[n.index][r]
 					if not close(oo, want):
 						bad['C03'].append('node %s <- %s raw material %s t=%d: on-order %s != ordered-not-received %s' % (n.index, pi, r, t, oo, want))
+					if t > 0 and pi is not None:
+						# order-pipeline conservation: what this node ordered from pi in period t is, with what was already travelling, either
+						# received by pi in period t or still travelling -- whatever the number of products that need the raw material
+						ps0, ps1 = net.nodes_by_index[pi].state_vars[t - 1], net.nodes_by_index[pi].state_vars[t]
+						lhs = sum(ps1.inbound_order_pipeline[n.index][r]) + ps1.inbound_order[n.index][r]
+						rhs = sum(ps0.inbound_order_pipeline[n.index][r]) + sv[t].order_quantity[pi][r]
+						if not close(lhs, rhs):
+							bad['C01'].append('edge %s -> %s raw material %s t=%d: orders placed %s + travelling before %s != received by the supplier %s + travelling now %s' % (
+								pi, n.index, r, t, sv[t].order_quantity[pi][r], sum(ps0.inbound_order_pipeline[n.index][r]), ps1.inbound_order[n.index][r], sum(ps1.inbound_order_pipeline[n.index][r])))
 					if t > 0:
 						if pi is not None:
 							inflow = net.nodes_by_index[pi].state_vars[t].outbound_shipment[n.index][r]
